@@ -626,7 +626,7 @@ class FnEmitter:
         if op == 'sub' and all(o.k == 'local' and o.v in s.p2i for o in ins.ops) and E.res(ins.ty).n == 64:
             # (ptrtoint p) - (ptrtoint q): emit as a pointer difference so that CBMC can fold it within one object
             pa, pb = s.v(s.p2i[ins.ops[0].v]), s.v(s.p2i[ins.ops[1].v])
-            s.w('%s = (%s == %s) ? (u64)0 : (u64)(%s - %s);' % (R, pa, pb, pa, pb)); return
+            s.w('%s = VF_PTRDIFF(%s, %s);' % (R, pa, pb)); return
         if op in ('add', 'sub', 'mul'):
             a, b = v(ins.ops[0]), v(ins.ops[1]); t = ins.ty; n = E.res(t).n; W = E.wide(t); c = {'add': '+', 'sub': '-', 'mul': '*'}[op]
             fl = ins.x['flags']
